@@ -95,7 +95,7 @@ def f_orphan(sm):
 def f_union(sm):
     _add_type(sm, mk_type("object", "UA", fields=[mk_field("a", "Int")]))
     _add_type(sm, mk_type("object", "UB", fields=[mk_field("b", "Int")]))
-    _add_type(sm, mk_type("union", "U", members=["UA", "UB"]))
+    _add_type(sm, mk_type("union", "U", members=["UB", "UA"]))
     _qfield(sm, mk_field("u", "U"))
 
 
